@@ -25,13 +25,14 @@ MANIFEST = {
              'distinct values with positions, both under val_leb; np.unique raises TypeError on unorderable object arrays and on 2-D object arrays with axis=; str(x) of ints/strs/bools/None; l[a:b] for a,b>=0 = firstn/skipn. '
              'Modelled, not proved about the code: that frame_sorted/_extract take whole rows (C03/C04/C12 territory; observed through the complete group contents), dtype resolution of the key array (a rule on dtype classes). '
              'The order hypotheses of the path theorems are proved satisfiable for Z only (val_leb on the generated key classes is validated by the correspondence, not proved). '
-             'Known findings (model follows the code, spec does not): C13-str-fallback, C13-axis1-one-row-list-key, C13-axis1-multi-key-object, C13-frame-labels-multi-depth-apply. NaN keys are outside the generated domain '
+             'Known finding (model follows the code, spec does not): C13-str-fallback. Repaired after this check derived them (regression cases kept): one-row list key on axis 1 (cf0ec12), string-branch labels on axis 1 (f8cd3fd), Frame.iter_group_labels over several depths (b935330). NaN keys are outside the generated domain '
              '(the two paths visibly disagree on them: one group per NaN on the sort path, one NaN group on the unique path).'),
     'technique': 'refinement of two implementation models to one specification + partition laws; loop = closed-form enumeration with regenerated arithmetic; differential correspondence by vm_compute',
 }
 PROPERTY_FILES = ['Properties/C13.v']
 REFUTED_FILES = ['Refuted/C13.v']
 MODEL_FILES = ['SF/GroupVal.v', 'SF/Window.v', 'SF/GroupCode.v', 'Gen/Gen_c13.v']
+GENERATED_FILES = ['Gen/Gen_c13.v']      # overwritten with a broken stub by targets.py when generate() raises
 IMPORTS = 'Require Import SF.Prelude SF.PySlice SF.Value SF.Group SF.GroupVal SF.Window Gen.Gen_c13.'
 RULE = ('api strata: public iter_group_items / iter_group_labels_items / iter_group*.apply / iter_window_items calls on generated Series and Frames -- exhaustive value sequences of length <= 4 over 3 values for Series, '
         'every block layout of frames with <= 3 columns (thorough: <= 4), both axes, element/list/slice keys of 1-3 positions, key dtypes int/str/bool/float/object(orderable, mixed, colliding str()), flat and hierarchical axes, '
@@ -42,8 +43,7 @@ RULE = ('api strata: public iter_group_items / iter_group_labels_items / iter_gr
 ASSUMPTIONS = [
     'np.argsort(kind="mergesort") + take = the stable sorted arrangement under val_leb (numbers by value, strings by code point, tuples lexicographically)',
     'np.unique(a, return_inverse=True) = (sorted distinct values, position of each element); TypeError for unorderable 1-D object arrays and for any object array with axis= on a 2-D source',
-    'NumPy >= 2: with axis=None the inverse has the SHAPE of the input (this is what breaks one-row list keys on axis 1)',
-    'str(x) for int / str / bool / None keys; floats never reach the string branch (generator families are disjoint)',
+        'str(x) for int / str / bool / None keys; floats never reach the string branch (generator families are disjoint)',
     'dtype resolution of several key columns / of a row: same class (int|float, bool, str) keeps a non-object dtype, mixed classes give object',
     'Python int = Z; l[a:b] with a, b >= 0 is firstn (b-a) (skipn a l)',
 ]
@@ -589,15 +589,11 @@ def frame_group_case(ctx, spec, layout, axis, keykind, positions, stratum, apply
     two_d = multi
     if not sort_path:
         tags = fallback_tags(tags, obj, two_d, keys)
-    if axis == 1 and multi and len(positions) == 1 and len(rows) >= 1:
-        tags = dict(tags, finding='C13-axis1-one-row-list-key')
-    elif axis == 1 and multi and obj and len(rows) >= 1:
-        tags = dict(tags, finding='C13-axis1-multi-key-object')
     ctx.count(f'{stratum}:axis{axis}', f'{stratum}:{keykind}', f'{stratum}:path={"sort" if sort_path else ("unique-str" if obj and (two_d or not orderable(keys)) else "unique")}',
               f'{stratum}:layout-blocks={len(layout)}', f'{stratum}:rows={len(rows)}', f'{stratum}:hier={int(not (cdepth1 and idepth1))}')
     desc = dict(spec_desc(spec, layout), axis=axis, key=repr(key))
     mcall = (f'(M_frame_group_api {lit.z(axis)} (Some {keyspec_lit(ks)}) {lit.b(multi)} {lit.b(cdepth1)} {lit.b(idepth1)} {lit.b(obj)} '
-             f'{nat(len(positions))} {rows_lit(rows)})')
+             f'{rows_lit(rows)})')
     scall = f'(S_frame_group_api {lit.z(axis)} (Some {keyspec_lit(ks)}) {rows_lit(rows)})'
     other = (lambda g: lit.labels(g.columns)) if axis == 0 else (lambda g: lit.labels(g.index))
     want_other = other(f)
@@ -622,7 +618,7 @@ def frame_group_case(ctx, spec, layout, axis, keykind, positions, stratum, apply
         out = ([key_py(k) for k in lit.labels(out.index)], out.values.tolist())
     obs = res_lit(st, out, apply_lit)
     desc.update(call=f'f.iter_group({key!r}, axis={axis}).apply(bitmask of member labels)', observed=repr(out))
-    return Case(stratum, desc, m=f'ares_eqb {obs} (M_apply_api false {rows_lit(rows)} {mcall})',
+    return Case(stratum, desc, m=f'ares_eqb {obs} (M_apply_api {rows_lit(rows)} {mcall})',
                 s=f'ares_same {obs} (S_apply_api {rows_lit(rows)} {scall})', tags=tags, nontrivial=nontrivial_groups(keys))
 
 
@@ -698,7 +694,7 @@ def series_group_cases(ctx):
         yield Case('api:series.iter_group.apply',
                    {'call': f's.iter_group{"_items" if items else ""}().apply(bitmask of member labels)', 'values': [repr(v) for v in values],
                     'index': index_labels, 'kind': kind, 'observed': repr(out)},
-                   m=f'ares_eqb {obs} (M_apply_api false {rows_lit(rows)} (M_unique_api {lit.b(obj)} (KCell 0) {rows_lit(rows)}))',
+                   m=f'ares_eqb {obs} (M_apply_api {rows_lit(rows)} (M_unique_api {lit.b(obj)} (KCell 0) {rows_lit(rows)}))',
                    s=f'ares_same {obs} (S_apply_api {rows_lit(rows)} (S_group_api (KCell 0) {rows_lit(rows)}))',
                    tags=tags, nontrivial=nontrivial_groups(values))
 
@@ -730,8 +726,6 @@ def frame_group_cases(ctx):
                 keykind, positions = 'element', [ctx.rng.randrange(npos)]    # tuple label = one element key
             else:
                 keykind, positions = choose_key(ctx, npos)
-            if axis == 1 and keykind != 'element' and len(positions) == 1 and ctx.rng.random() < 0.8:
-                keykind = 'element'      # keep the (known) one-row-list-key class a small share of the stratum
             for layout in pick_layouts(ctx, spec, 2):
                 yield frame_group_case(ctx, spec, layout, axis, keykind, positions, 'api:frame.iter_group_items')
     for _ in range(ctx.n(25, 250)):
@@ -740,8 +734,6 @@ def frame_group_cases(ctx):
         axis = ctx.rng.choice([0, 1])
         npos = len(spec['col_labels']) if axis == 0 else len(spec['index_labels'])
         keykind, positions = choose_key(ctx, npos)
-        if axis == 1 and keykind != 'element' and (len(positions) == 1 or resolved_obj(spec['dtypes'])):
-            keykind, positions = 'element', positions[:1]     # the two axis-1 list-key findings are exercised in the items stratum and the corpus
         layout = ctx.rng.choice(spec['layouts'])
         yield frame_group_case(ctx, spec, layout, axis, keykind, positions, 'api:frame.iter_group.apply', apply_=True)
 
@@ -839,13 +831,10 @@ def labels_cases(ctx):
             st, out = run(lambda: ap(func))
             if st == 'ok':
                 out = ([key_py(k) for k in lit.labels(out.index)], out.values.tolist())
-            unhashable = which != 'series' and multi
-            if unhashable:
-                tags = dict(tags, finding='C13-frame-labels-multi-depth-apply')
             obs = res_lit(st, out, apply_lit)
             desc['observed'] = repr(out)
             yield Case('api:iter_group_labels.apply', desc,
-                       m=f'ares_eqb {obs} (M_apply_api {lit.b(unhashable)} {rows_lit(rows)} {mcall})',
+                       m=f'ares_eqb {obs} (M_apply_api {rows_lit(rows)} {mcall})',
                        s=f'ares_same {obs} (S_apply_api {rows_lit(rows)} {scall})', tags=tags, nontrivial=nontrivial_groups(keys))
 
 
@@ -977,7 +966,7 @@ def malformed_cases(ctx):
         obs = res_lit(st, out if st == 'err' else [], groups_lit)
         ctx.count('malformed:group')
         yield Case('malformed:frame.iter_group_items', {'call': f'f.iter_group_items({key!r}, axis={axis})', 'observed': out if st == 'err' else 'no error'},
-                   m=f'gres_eqb {obs} (M_frame_group_api {lit.z(axis)} {keylit} false true true false 1%nat {rows_lit(rows)})',
+                   m=f'gres_eqb {obs} (M_frame_group_api {lit.z(axis)} {keylit} false true true false {rows_lit(rows)})',
                    tags={'api': 'frame.iter_group_items', 'malformed': True}, nontrivial=False)
     s = sf.Series([10, 20, 30], index=('a', 'b', 'c'))
     for size, step in ((0, 1), (-1, 1), (2, -1), (0, -1)):
@@ -988,7 +977,8 @@ def malformed_cases(ctx):
 
 
 def corpus_cases(ctx):
-    '''minimal inputs of the known findings (each must reproduce in every run) and of earlier mistakes of this check'''
+    '''minimal input of the known finding (must reproduce in every run) and regression inputs of the three repaired
+    defects (cf0ec12, f8cd3fd, b935330), now held to the correct behaviour by the specification'''
     import static_frame as sf
     from types import SimpleNamespace
     fixed = SimpleNamespace(rng=__import__('random').Random(0), tier=ctx.tier, n=ctx.n, count=ctx.count)
@@ -998,17 +988,17 @@ def corpus_cases(ctx):
             'index_labels': ['r0', 'r1', 'r2'], 'col_labels': ['c0', 'c1'], 'index': sf.Index(['r0', 'r1', 'r2']), 'columns': sf.Index(['c0', 'c1']),
             'layouts': list(zoo.layouts_for([a.dtype for a in arrays])), 'mode': 'dup', 'hier_index': False, 'hier_columns': False}
     yield frame_group_case(fixed, spec, spec['layouts'][0], 0, 'element', [0], 'corpus:str-fallback')
-    # 2. one-row list key on axis 1
+    # 2. one-row list key on axis 1 (raised ValueError before cf0ec12)
     arrays = [make_array('int', [1, 2]), make_array('int', [1, 3])]
     spec2 = dict(spec, kinds=['int', 'int'], cols=[[1, 2], [1, 3]], arrays=arrays, dtypes=[a.dtype for a in arrays], index_labels=['r0', 'r1'],
                  index=sf.Index(['r0', 'r1']), layouts=list(zoo.layouts_for([a.dtype for a in arrays])))
-    yield frame_group_case(fixed, spec2, spec2['layouts'][0], 1, 'list', [0], 'corpus:axis1-one-row-list-key')
-    # 2b. two key rows on axis 1 with an object row dtype (bool + int columns)
+    yield frame_group_case(fixed, spec2, spec2['layouts'][0], 1, 'list', [0], 'regression:axis1-one-row-list-key')
+    # 2b. two key rows on axis 1 with an object row dtype (bool + int columns): labels were exchanged before f8cd3fd
     arrays = [make_array('bool', [True, False, True]), make_array('int', [9, 9, 9])]
     spec3 = dict(spec, kinds=['bool', 'int'], cols=[[True, False, True], [9, 9, 9]], arrays=arrays, dtypes=[a.dtype for a in arrays],
                  layouts=list(zoo.layouts_for([a.dtype for a in arrays])))
-    yield frame_group_case(fixed, spec3, spec3['layouts'][0], 1, 'list', [1, 2], 'corpus:axis1-multi-key-object')
-    # 3. Frame.iter_group_labels([0, 1]).apply
+    yield frame_group_case(fixed, spec3, spec3['layouts'][0], 1, 'list', [1, 2], 'regression:axis1-multi-key-object')
+    # 3. Frame.iter_group_labels([0, 1]).apply (raised TypeError before b935330)
     labels = [('a', 1), ('a', 2), ('b', 1)]
     fr = sf.Frame(np.arange(6).reshape(3, 2), index=sf.IndexHierarchy.from_labels(labels), columns=('x', 'y'))
     rows = axis_rows(fr, 0)
@@ -1017,12 +1007,12 @@ def corpus_cases(ctx):
     if st == 'ok':
         out = ([key_py(k) for k in lit.labels(out.index)], out.values.tolist())
     obs = res_lit(st, out, apply_lit)
-    yield Case('corpus:frame-labels-multi-depth-apply',
+    yield Case('regression:frame-labels-multi-depth-apply',
                {'call': 'sf.Frame(np.arange(6).reshape(3,2), index=IndexHierarchy.from_labels([("a",1),("a",2),("b",1)])).iter_group_labels([0,1]).apply(lambda g: <bitmask of g.index labels>)',
                 'observed': repr(out)},
-               m=f'ares_eqb {obs} (M_apply_api true {rows_lit(rows)} (M_unique_api true (KDepths [0%nat; 1%nat]) {rows_lit(rows)}))',
+               m=f'ares_eqb {obs} (M_apply_api {rows_lit(rows)} (M_unique_api true (KDepths [0%nat; 1%nat]) {rows_lit(rows)}))',
                s=f'ares_same {obs} (S_apply_api {rows_lit(rows)} (S_group_api (KDepths [0%nat; 1%nat]) {rows_lit(rows)}))',
-               tags={'api': 'iter_group_labels', 'container': 'frame0', 'multi_depth': True, 'apply': True, 'finding': 'C13-frame-labels-multi-depth-apply'},
+               tags={'api': 'iter_group_labels', 'container': 'frame0', 'multi_depth': True, 'apply': True},
                nontrivial=False)
 
 
